@@ -239,6 +239,115 @@ theorem foldl_chmod_oidAt (ps : List (Key × Entry)) : ∀ (w : Ws) (k : Key), o
       | some x => cases x <;> rfl
     · simp [e]
 
+/-! ### nodes that the creation phases leave alone, and what `chmod` does -/
+
+theorem mkdirStep_keeps (w w' : Ws) (p : Key) (h : mkdirStep w p = some w') (k : Key) (n : Node)
+    (hk : w.lookup k = some n) : w'.lookup k = some n := by
+  unfold mkdirStep at h
+  cases hl : w.lookup p with
+  | none =>
+    rw [hl] at h
+    simp only [Option.some.injEq] at h
+    subst h
+    rw [lookup_append_single, hk]
+  | some x =>
+    rw [hl] at h
+    cases x with
+    | dir => simp only [Option.some.injEq] at h; subst h; exact hk
+    | file oid ex => cases h
+
+theorem makedirs_keeps (w w' : Ws) (d : Key) (h : makedirs w d = some w') (k : Key) (n : Node)
+    (hk : w.lookup k = some n) : w'.lookup k = some n := by
+  rw [makedirs_eq] at h
+  have : ∀ (ps : List Key) (w w' : Ws), ps.foldlM mkdirStep w = some w' → w.lookup k = some n → w'.lookup k = some n := by
+    intro ps
+    induction ps with
+    | nil => intro w w' h hk; simp only [List.foldlM_nil] at h; cases h; exact hk
+    | cons p r ih =>
+      intro w w' h hk
+      simp only [List.foldlM_cons] at h
+      cases hs : mkdirStep w p with
+      | none => rw [hs] at h; cases h
+      | some w1 =>
+        rw [hs] at h
+        exact ih w1 w' h (mkdirStep_keeps w w1 p hs k n hk)
+  exact this _ w w' h hk
+
+theorem foldlM_makedirs_keeps : ∀ (ds : List Key) (w w' : Ws), ds.foldlM makedirs w = some w' → ∀ (k : Key) (n : Node),
+    w.lookup k = some n → w'.lookup k = some n := by
+  intro ds
+  induction ds with
+  | nil => intro w w' h k n hk; simp only [List.foldlM_nil] at h; cases h; exact hk
+  | cons d r ih =>
+    intro w w' h k n hk
+    simp only [List.foldlM_cons] at h
+    cases hs : makedirs w d with
+    | none => rw [hs] at h; cases h
+    | some w1 =>
+      rw [hs] at h
+      exact ih w1 w' h k n (makedirs_keeps w w1 d hs k n hk)
+
+theorem createFile_keeps (cache : List Str) (w : Ws) (errs : List Key) (p : Key × Entry) (k : Key) (n : Node)
+    (hne : k ≠ p.1) (hk : w.lookup k = some n) : (createFile cache (w, errs) p).1.lookup k = some n := by
+  unfold createFile
+  simp only
+  cases hh : p.2.hashInfo with
+  | none => exact hk
+  | some h =>
+    simp only
+    cases hv : h.value with
+    | none => exact hk
+    | some oid =>
+      simp only
+      split
+      · exact hk
+      · cases hm : makedirs w p.1.dropLast with
+        | none => exact hk
+        | some w1 =>
+          have hk1 := makedirs_keeps w w1 _ hm k n hk
+          simp only
+          split
+          · exact hk1
+          · split
+            · exact hk1
+            · simp only
+              rw [AList.lookup_set]
+              have : ¬ p.1 = k := fun e => hne e.symm
+              simp [this, hk1]
+
+theorem foldl_createFile_keeps (cache : List Str) : ∀ (ps : List (Key × Entry)) (acc : Ws × List Key) (k : Key) (n : Node),
+    (∀ p ∈ ps, p.1 ≠ k) → acc.1.lookup k = some n → (ps.foldl (createFile cache) acc).1.lookup k = some n := by
+  intro ps
+  induction ps with
+  | nil => intro acc k n _ hk; exact hk
+  | cons p r ih =>
+    intro acc k n hne hk
+    simp only [List.foldl_cons]
+    apply ih _ k n (fun q hq => hne q (List.mem_cons_of_mem _ hq))
+    obtain ⟨w, errs⟩ := acc
+    exact createFile_keeps cache w errs p k n (fun e => hne p (by simp) e.symm) hk
+
+/-- `chmod` keeps a file a file with its content, and never clears the bit -/
+theorem chmodFile_file (w : Ws) (p : Key × Entry) (k : Key) (oid : Str) (ex : Bool)
+    (hk : w.lookup k = some (.file oid ex)) :
+    (chmodFile w p).lookup k = some (.file oid (ex || decide (p.1 = k))) := by
+  rw [chmodFile_lookup]
+  by_cases e : p.1 = k
+  · simp [e, hk]
+  · simp [e, hk]
+
+theorem foldl_chmod_file : ∀ (ps : List (Key × Entry)) (w : Ws) (k : Key) (oid : Str) (ex : Bool),
+    w.lookup k = some (.file oid ex) →
+    (ps.foldl chmodFile w).lookup k = some (.file oid (ex || ps.any fun p => decide (p.1 = k))) := by
+  intro ps
+  induction ps with
+  | nil => intro w k oid ex hk; simpa using hk
+  | cons p r ih =>
+    intro w k oid ex hk
+    simp only [List.foldl_cons, List.any_cons]
+    rw [ih _ k oid _ (chmodFile_file w p k oid ex hk)]
+    simp [Bool.or_assoc]
+
 /-! ### what `compare` schedules, exactly -/
 
 theorem diffEntry_none_some (o : Opts) (ho : o.metaOnly = false) (hh : o.hashOnly = false) (n : Entry) :
@@ -543,6 +652,85 @@ theorem compare_schedules_replace (delete : Bool) (old new : Option Index) (hwo 
     apply (addCreate_mono _ _).1
     simp [addDelete, hd']
 
+/-! ### what `compare` schedules for the executable bit -/
+
+/-- whatever is created and is executable is also scheduled for `chmod` -/
+def ExecInv (a : Actions) : Prop := ∀ p ∈ a.filesCreate, isExecE p.2 = true → p ∈ a.filesChmod
+
+theorem addCreate_execInv (a : Actions) (p : Key × Entry) (h : ExecInv a) : ExecInv (addCreate a p) := by
+  unfold addCreate
+  split
+  · exact h
+  · intro q hq hx
+    simp only at hq ⊢
+    rcases List.mem_append.mp hq with hq | hq
+    · have := h q hq hx
+      split
+      · exact List.mem_append_left _ this
+      · exact this
+    · simp only [List.mem_singleton] at hq
+      subst hq
+      simp [hx]
+
+theorem addDelete_execInv (a : Actions) (p : Key × Entry) (h : ExecInv a) : ExecInv (addDelete a p) := by
+  unfold addDelete
+  split <;> exact h
+
+theorem stepChange_execInv (delete : Bool) (new : Option Index) (a : Actions) (c : Change) (h : ExecInv a) :
+    ExecInv (stepChange delete new a c) := by
+  unfold stepChange
+  cases ht : c.typ <;> cases ho : c.old <;> cases hn : c.new <;> simp only [] <;>
+    first
+    | exact h
+    | exact addCreate_execInv a _ h
+    | (split
+       · exact h
+       · split
+         · exact h
+         · exact addDelete_execInv a _ h)
+    | (split
+       · split
+         · exact h
+         · exact addCreate_execInv _ _ (addDelete_execInv a _ h)
+       · split
+         · intro q hq hx; exact List.mem_append_left _ (h q hq hx)
+         · exact h)
+
+theorem compare_execInv (delete : Bool) (old new : Option Index) : ExecInv (compare delete old new) := by
+  unfold compare
+  have : ∀ (cs : List Change) (a : Actions), ExecInv a → ExecInv (cs.foldl (stepChange delete new) a) := by
+    intro cs
+    induction cs with
+    | nil => intro a h; exact h
+    | cons c r ih => intro a h; exact ih _ (stepChange_execInv delete new a c h)
+  exact this _ _ (fun p hp => by simp at hp)
+
+/-- a file whose content stays and whose executable bit changes is scheduled for `chmod` -/
+theorem compare_schedules_chmod (delete : Bool) (old new : Option Index) (hwo : WFOpt old) (hwn : WFOpt new)
+    (k : Key) (o n : Entry) (ho : entryOf old k = some o) (hn : entryOf new k = some n)
+    (hmod : diffEntry { cmp := .dirExec } (some o) (some n) = .modify)
+    (hsame : o.hashInfo = n.hashInfo) (hkind : isDirE o = isDirE n) (hfile : isDirE n = false)
+    (hex : isExecE o ≠ isExecE n) :
+    (k, n) ∈ (compare delete old new).filesChmod := by
+  have hb : HasBelow old k ∨ HasBelow new k := Or.inl (hasBelow_of_entryOf old k o ho)
+  let c : Change := { typ := .modify, old := some (k, o), new := some (k, n) }
+  have hc : c ∈ hereOf { cmp := .dirExec } old new k := by
+    unfold hereOf
+    simp [ho, hn, hmod, c]
+  have hcd := change_in_diff old new hwo hwn k hb c hc
+  unfold compare
+  apply foldl_stepChange_mem delete new (·.filesChmod) (fun a b h q hq => h.2.2.2.2 q hq) (k, n) c ?_ _ _ hcd
+  intro a
+  simp only [stepChange, c]
+  have h1 : ¬ (o.hashInfo ≠ n.hashInfo ∨ isDirE o ≠ isDirE n) := by
+    rintro (h | h)
+    · exact h hsame
+    · exact h hkind
+  rw [if_neg h1]
+  have h2 : isExecE o ≠ isExecE n ∧ (!isDirE n) = true := ⟨hex, by simp [hfile]⟩
+  rw [if_pos h2]
+  simp
+
 theorem decide3_meta_modify (h : Typ) (t : Bool) : decide3 false false .unchanged .modify h false t = .modify := by
   cases h <;> cases t <;> decide
 
@@ -563,6 +751,23 @@ theorem diffEntry_kind (o n : Entry) (ho : o.mt.isSome = true) (hn : n.mt.isSome
       have hM : diffMeta .dirExec (some a) (some b) = .modify := by
         simp only [diffMeta, cmpMeta]
         have : (a.isdir == b.isdir) = false := by simpa using hab
+        simp [this]
+      simp only [diffEntry, entryDiffOf, Option.isSome_some, Option.bind_some, hom, hnm, Option.isNone_some, hM]
+      exact decide3_meta_modify _ _
+
+/-- entries differing in the executable bit are reported as modified -/
+theorem diffEntry_exec (o n : Entry) (ho : o.mt.isSome = true) (hn : n.mt.isSome = true) (hk : isExecE o ≠ isExecE n) :
+    diffEntry { cmp := .dirExec } (some o) (some n) = .modify := by
+  cases hom : o.mt with
+  | none => rw [hom] at ho; cases ho
+  | some a =>
+    cases hnm : n.mt with
+    | none => rw [hnm] at hn; cases hn
+    | some b =>
+      have hab : a.isexec ≠ b.isexec := by simpa [isExecE, hom, hnm] using hk
+      have hM : diffMeta .dirExec (some a) (some b) = .modify := by
+        simp only [diffMeta, cmpMeta]
+        have : (a.isexec == b.isexec) = false := by simpa using hab
         simp [this]
       simp only [diffEntry, entryDiffOf, Option.isSome_some, Option.bind_some, hom, hnm, Option.isNone_some, hM]
       exact decide3_meta_modify _ _
@@ -1144,6 +1349,124 @@ theorem apply_compare_converges :
       cases ho : oidAt w4 k with
       | none => rfl
       | some o => exact absurd (hm4.filesInTarget k (by rw [ho]; simp)) hk
+
+/-! ### the executable bit -/
+
+/-- a target file that is not scheduled for creation sits in the workspace with the target's content and survives
+    both deletion phases untouched -/
+theorem unscheduled_kept_ws2 (k : Key) (e : Entry) (he : T.lookup k = some e) (hf : isDirE e = false)
+    (hns : ∀ p ∈ (acts ws T).filesCreate, p.1 ≠ k) :
+    ∃ oid ex, ws.lookup k = some (.file oid ex) ∧ (nodeEntry (.file oid ex)).hashInfo = e.hashInfo ∧
+      (ws2 ws T).lookup k = some (.file oid ex) := by
+  have hex : ∃ oid ex, ws.lookup k = some (.file oid ex) ∧ (nodeEntry (.file oid ex)).hashInfo = e.hashInfo := by
+    apply Classical.byContradiction
+    intro hno
+    exact hns _ (sched_file_create cache ws T hw ht k e he hf hno) rfl
+  obtain ⟨oid, ex, hwk, hhash⟩ := hex
+  have h1 : (ws1 ws T).lookup k = ws.lookup k := by
+    rw [ws1_lookup]
+    have : ¬ ∃ p ∈ fdKeys ws T, p <+: k := by
+      rintro ⟨p, hp, hpk⟩
+      obtain ⟨pe, hpe, rfl⟩ := List.mem_map.mp hp
+      obtain ⟨o2, e2, hl2, hpe2⟩ := fd_ws cache ws T hw ht pe hpe
+      by_cases hpk' : pe.1 = k
+      · obtain ⟨_, _, hdiff⟩ := (acts_inv2 cache ws T hw ht).fdelete pe hpe
+        have := hdiff e (by rw [entryOf_target cache T ht, hpk', he])
+        rw [hpk', hwk] at hl2
+        injection hl2 with hl2; injection hl2 with ho he'
+        subst ho; subst he'
+        rw [hpe2] at this
+        rcases this with h | h
+        · exact h hhash
+        · rw [hf] at h; simp [nodeEntry, isDirE] at h
+      · have hpne : pe.1 ≠ [] := by intro h; rw [h, hw.noRoot] at hl2; cases hl2
+        have := hw.tree k _ hwk pe.1 hpne hpk hpk'
+        rw [this] at hl2; cases hl2
+    simp [this]
+  have h2 : (ws2 ws T).lookup k = (ws1 ws T).lookup k := by
+    apply foldl_rmdir_lookup_not_mem
+    intro hmem
+    have hmem' : k ∈ ddKeys ws T := (List.mergeSort_perm _ _).mem_iff.mp hmem
+    obtain ⟨pd, hpd, rfl⟩ := List.mem_map.mp hmem'
+    have := (dd_ws cache ws T hw ht pd hpd).1
+    rw [hwk] at this; cases this
+  exact ⟨oid, ex, hwk, hhash, by rw [h2, h1, hwk]⟩
+
+/-- a workspace file with the target's content but without the executable bit the target asks for is scheduled for `chmod` -/
+theorem sched_chmod (k : Key) (e : Entry) (he : T.lookup k = some e) (hf : isDirE e = false) (hx : isExecE e = true)
+    (oid : Str) (hwk : ws.lookup k = some (.file oid false))
+    (hhash : (nodeEntry (.file oid false)).hashInfo = e.hashInfo) : (k, e) ∈ (acts ws T).filesChmod := by
+  unfold acts
+  have hwo : WFOpt (some (indexOfWs ws)) := wfIdx_indexOfWs ws hw
+  have hwn : WFOpt (some T) := ht.wf
+  have hne : entryOf (some T) k = some e := by rw [entryOf_target cache T ht, he]
+  have hoe : entryOf (some (indexOfWs ws)) k = some (nodeEntry (.file oid false)) := by rw [entryOf_ws, hwk]; rfl
+  have hxx : isExecE (nodeEntry (.file oid false)) ≠ isExecE e := by rw [hx]; simp [nodeEntry, isExecE]
+  exact compare_schedules_chmod true _ _ hwo hwn k _ e hoe hne
+    (diffEntry_exec _ e rfl (ht.hasMeta k e he) hxx) hhash (by rw [hf]; rfl) hf hxx
+
+/-- **C09 (executable entries).** Under the hypotheses of `apply_compare_converges`, after applying what `compare`
+    schedules every file the target marks executable is a file with the executable bit set — whether it was
+    created, already there without the bit, or already there with it. -/
+theorem apply_compare_exec :
+    ∃ ws', apply cache (compare true (some (indexOfWs ws)) (some T)) ws = .ok ws' [] ∧
+      ∀ k e, T.lookup k = some e → isDirE e = false → isExecE e = true → ∃ oid, ws'.lookup k = some (.file oid true) := by
+  have hm2 := mid_ws2 cache ws T hw ht
+  obtain ⟨w3, h3, hm3, _⟩ := mid_foldl_makedirs cache ws T ht ((acts ws T).dirsCreate.map (·.1)) (ws2 ws T) hm2
+    (by
+      intro d hd q hq hpre
+      obtain ⟨p, hp, rfl⟩ := List.mem_map.mp hd
+      obtain ⟨hT, hdir⟩ := dc_target cache ws T hw ht p hp
+      exact ⟨p.1, p.2, hT, hpre, fun _ => hdir⟩)
+  obtain ⟨w4, h4, hm4, hdone, _⟩ := mid_foldl_createFile cache ws T hw ht (acts ws T).filesCreate w3 hm3 (fun p hp => hp) []
+  refine ⟨(acts ws T).filesChmod.foldl chmodFile w4, ?_, ?_⟩
+  · unfold apply
+    have e1 : (compare true (some (indexOfWs ws)) (some T)).filesDelete.foldl (fun w p => removePath w p.1) ws = ws1 ws T := by
+      unfold ws1 fdKeys acts
+      rw [List.foldl_map]
+    simp only [e1]
+    have e2 : (deepestFirst ((compare true (some (indexOfWs ws)) (some T)).dirsDelete.map (·.1))).foldl rmdir (ws1 ws T) = ws2 ws T := rfl
+    rw [e2]
+    have e3 : ((compare true (some (indexOfWs ws)) (some T)).dirsCreate.map (·.1)).foldlM makedirs (ws2 ws T) = some w3 := h3
+    rw [e3]
+    simp only
+    have e4 : (compare true (some (indexOfWs ws)) (some T)).filesCreate.foldl (createFile cache) (w3, []) = (w4, []) := h4
+    rw [e4]
+    rfl
+  · intro k e he hf hx
+    by_cases hin : ∃ p ∈ (acts ws T).filesCreate, p.1 = k
+    · -- created: scheduled for chmod as well
+      obtain ⟨p, hp, rfl⟩ := hin
+      obtain ⟨hT, _⟩ := fc_target cache ws T hw ht p hp
+      have hpe : p.2 = e := by rw [hT] at he; exact Option.some.inj he
+      have hch : p ∈ (acts ws T).filesChmod := compare_execInv true _ _ p hp (by rw [hpe]; exact hx)
+      have ho := hdone p hp
+      obtain ⟨h, oid, hh, hv, _, _⟩ := ht.cached p.1 e he hf
+      have hfo : fileOid T p.1 = some oid := by unfold fileOid; rw [he]; simp [hf, hh, hv]
+      rw [hfo] at ho
+      obtain ⟨oid', ex, hl⟩ := oidAt_some w4 p.1 (by rw [ho]; simp)
+      refine ⟨oid', ?_⟩
+      rw [foldl_chmod_file _ w4 p.1 oid' ex hl]
+      have : ((acts ws T).filesChmod.any fun q => decide (q.1 = p.1)) = true :=
+        List.any_eq_true.mpr ⟨p, hch, by simp⟩
+      simp [this]
+    · -- not created: it was there with the right content; either it had the bit or chmod is scheduled
+      have hns : ∀ p ∈ (acts ws T).filesCreate, p.1 ≠ k := fun p hp e' => hin ⟨p, hp, e'⟩
+      obtain ⟨oid, ex, hwk, hhash, hk2⟩ := unscheduled_kept_ws2 cache ws T hw ht k e he hf hns
+      have hk3 : w3.lookup k = some (.file oid ex) := foldlM_makedirs_keeps _ _ _ h3 k _ hk2
+      have hk4 : w4.lookup k = some (.file oid ex) := by
+        have := foldl_createFile_keeps cache (acts ws T).filesCreate (w3, []) k _ hns hk3
+        rw [h4] at this
+        exact this
+      refine ⟨oid, ?_⟩
+      rw [foldl_chmod_file _ w4 k oid ex hk4]
+      cases ex with
+      | true => simp
+      | false =>
+        have hch := sched_chmod cache ws T hw ht k e he hf hx oid hwk hhash
+        have : ((acts ws T).filesChmod.any fun q => decide (q.1 = k)) = true :=
+          List.any_eq_true.mpr ⟨(k, e), hch, by simp⟩
+        simp [this]
 
 end classify
 
